@@ -371,11 +371,12 @@ func condFacts(c ssa.Value, truth bool) []fact {
 			if k := valueKey(ta.X); k != "" {
 				fs = append(fs, fact{k, NonNil})
 			}
-			if sx.IsInterface(ta.AssertedType) {
-				for _, r := range *ta.Referrers() {
-					if e0, ok := r.(*ssa.Extract); ok && e0.Index == 0 {
-						fs = append(fs, fact{valueKey(e0), NonNil})
-					}
+			// A successful comma-ok assertion yields a non-nil value: exactly so for
+			// interface targets; for pointer targets under the assumption that no
+			// typed-nil pointer is boxed (wire payloads are allocated by UnmarshalAny).
+			for _, r := range *ta.Referrers() {
+				if e0, ok := r.(*ssa.Extract); ok && e0.Index == 0 {
+					fs = append(fs, fact{valueKey(e0), NonNil})
 				}
 			}
 			return fs
